@@ -14,7 +14,7 @@ for l in open("/verif/properties.jsonl"):
     p = json.loads(l)
     if p["id"] == pid:
         json.dump(p, open(wt + "/out/PROPERTY.json", "w"), indent=1)
-open(wt + "/out/PROMPT.md", "w").write(open("/verif/tools/SEED_PROMPT.md").read().replace("@ID@", pid))
+open(wt + "/out/PROMPT.md", "w").write(open(__import__("os").environ.get("SEED_PROMPT","/verif/tools/SEED_PROMPT.md")).read().replace("@ID@", pid))
 PY
   echo "$wt ready"
 done
